@@ -122,9 +122,7 @@ func (h *NFSProcedureHandler) handleSetattr(body io.Reader, reply *RPCReply, aut
 	// A symbolic link handle names the link itself: never follow it to the
 	// target. A link has no settable size, mode or times here; only ownership
 	// can be changed (Lchown).
-	node.mu.RLock()
-	isSymlink := node.attrs != nil && node.attrs.Mode&os.ModeSymlink != 0
-	node.mu.RUnlock()
+	isSymlink := preAttrs.Mode&os.ModeSymlink != 0
 	if isSymlink {
 		if sattr.SetSize {
 			return nfsErrorWithWcc(reply, NFSERR_INVAL), nil
